@@ -185,7 +185,7 @@ Theorem C01_wire_roundtrip_is_the_source :
   (forall w v id buf i old v',
      (forall rest, decode w old (Wire.encode w v ++ rest) = Ok v') ->
      (i + List.length (Wire.encode w v) <= List.length buf)%nat ->
-     exists b', run_fill (prog_fill w) (env_of w v id) buf i = Some (b', List.length (Wire.encode w v)) /\
+     exists b', run_fill (prog_fill w) (wenv_of w v id) buf i = Some (b', List.length (Wire.encode w v)) /\
                 lift (value_of w) (run_wdec (dprog_of w) (wv_of w old) (skipn i b')) = Ok v') /\
   ((forall n old rest, (n < 256)%N -> decode U8 old (Wire.encode U8 (VN n) ++ rest) = Ok (VN n)) /\
    (forall n old rest, (n < 65536)%N -> decode U16 old (Wire.encode U16 (VN n) ++ rest) = Ok (VN n)) /\
